@@ -84,6 +84,12 @@ func NewWorld() *World {
 	}
 }
 
+// pageSetType is the specification-only type "PageSet": a mathematical set of
+// 64-bit page ids (SMT array from ids to Bool). It has no package.
+var pageSetType = types.NewNamed(types.NewTypeName(0, nil, "PageSet", nil), types.NewStruct(nil, nil), nil)
+
+func isPageSet(t types.Type) bool { return t == pageSetType }
+
 // overlayTypes: byte-array types that are only ever used as the storage of one
 // struct type (metaBuf for metaPage). They are modelled as that struct laid
 // over element 0 (key: "pkgpath.Name"). Filled once while loading contracts.
@@ -136,6 +142,9 @@ func opaqueLE(t types.Type) (int, bool) {
 }
 
 func (w *World) sortOf(t types.Type) Sort {
+	if isPageSet(t) {
+		return SArray(SBV(64), SBool)
+	}
 	if n, ok := opaqueLE(t); ok {
 		return SBV(n)
 	}
@@ -361,6 +370,9 @@ func (w *World) mapValSort(m *types.Map) Sort {
 // zero value of a Go type
 func (w *World) zero(t types.Type) *Term {
 	b := w.b
+	if isPageSet(t) {
+		return b.ConstArray(SArray(SBV(64), SBool), b.False())
+	}
 	if n, ok := opaqueLE(t); ok {
 		return b.BV(0, n)
 	}
